@@ -475,6 +475,8 @@ fn gen_tasks(rng: &mut Rng, focus: usize) -> Vec<Task> {
 #[derive(Clone, Copy, PartialEq, Debug)]
 enum Kind {
     Begin,
+    /// on a chain of overlays: the committed root is read under `shared` to compare it with the chain's base (F23 repair)
+    BeginOv,
     End,
     SRead,
     NRead,
@@ -693,8 +695,9 @@ impl<'a> Render<'a> {
                         // the session `Nomt::rollback` opens under its write guard
                     } else {
                         let sid = self.sid(field(&e.detail, "sid").unwrap_or("?"));
-                        let kw = if field(&e.detail, "overlay") == Some("1") { "beginov" } else { "begin" };
-                        self.call(t, format!("{kw} {sid}"), Kind::Begin, sid);
+                        let ov = field(&e.detail, "overlay") == Some("1");
+                        let kw = if ov { "beginov" } else { "begin" };
+                        self.call(t, format!("{kw} {sid}"), if ov { Kind::BeginOv } else { Kind::Begin }, sid);
                     }
                 }
                 "A.read.wait" => {
